@@ -370,6 +370,9 @@ pub struct Engine<'a> {
     /// C16's "liquidity tokens in coins <= pool.liqs" oracle; switched off only in the scenario that starts from tokens the
     /// pools never issued (faucet-minted), which is outside the histories the property quantifies over
     pub check_backing: bool,
+    /// keep exploring behind a state in which the real trees differ from the model (the difference is reported where it arises);
+    /// the model stays authoritative, so that what the difference leads to is seen as well (C19: a lost faucet marker -> a replay)
+    pub continue_after_mismatch: bool,
 }
 
 pub enum StepOut {
@@ -418,7 +421,7 @@ fn err_name(e: &StateError) -> &'static str {
 
 impl<'a> Engine<'a> {
     pub fn new(run: &'a Run) -> Self {
-        Engine { run, check_conservation: true, check_backing: true }
+        Engine { run, check_conservation: true, check_backing: true, continue_after_mismatch: false }
     }
 
     pub fn step(&self, n: &Node, a: &Action) -> StepOut {
@@ -630,7 +633,7 @@ impl<'a> Engine<'a> {
                 if after.header.pools_hash != before.header.pools_hash || after.header.fee_multiplier != before.header.fee_multiplier || after.header.height != before.header.height {
                     run.violation("C02", "batch-moves-pools-or-scalars".into(), format!("after [{}] ; [{}]", n.path_str(), label), n.replay_json(Some(a)));
                 }
-                if ok {
+                if ok || self.continue_after_mismatch {
                     StepOut::Next(child)
                 } else {
                     StepOut::Pruned
@@ -890,7 +893,7 @@ impl<'a> Engine<'a> {
             c2.model = m;
             return StepOut::Next(c2);
         }
-        if ok {
+        if ok || self.continue_after_mismatch {
             StepOut::Next(child)
         } else {
             StepOut::Pruned
@@ -1127,6 +1130,7 @@ pub fn seal_ambiguity(m: &RefState) -> BTreeSet<String> {
 // ---------------------------------------------------------------------------------------------
 // breadth-first search
 
+#[derive(Default)]
 pub struct SearchStats {
     pub states: u64,
     pub transitions: u64,
